@@ -40,7 +40,7 @@ def handlePkt (fs : List (String × String)) : String := Id.run do
   let bad : Option String :=
     if panicked then some "panic"
     else if dropped && (got != "-" || changed || replies > 0) then some "dropped-packet-had-effect"
-    else if changed then some "undecodable-protocol-message-changed-membership"
+    else if changed && getD fs "decodable" "0" != "1" then some "undecodable-protocol-message-changed-membership"
     else none
   return verdict (mGot == got && !panicked) bad (users.length ≥ 2) (if dropped then "pkt-drop" else s!"pkt-{min users.length 3}") (if mGot == got then "" else s!"model={mGot}")
 
